@@ -1604,4 +1604,196 @@ theorem writeGrow_spec (w : World) (q : Cq) (d : Bytes) :
       omega
   · exact ⟨hf, Grows.refl w, hq⟩
 
+theorem tempfileErr_tstep {w : World} {q : Cq} {e : Bool} {w' : World} {q' : Cq} {r : Bool}
+    (h : tempfileErr w q e = (w', q', r)) : TStep w q w' q' := (tempfileErr_spec h).tstep
+
+theorem mtLoop_spec (fuel : Nat) (w : World) (q : Cq) (d : Bytes) :
+    TStep w q (mtLoop fuel w q d).1 (mtLoop fuel w q d).2.1 := by
+  fun_induction mtLoop fuel w q d with
+  | case1 w q d => exact TStep.refl w q
+  | case2 fuel w q d w1 q1 hg => exact getAppendTempfile_spec hg
+  | case3 fuel w q d w1 q1 hg h0 => exact getAppendTempfile_spec hg
+  | case4 fuel w q d w1 q1 hg h0 p he =>
+    exact (getAppendTempfile_spec hg).trans
+      ((TStep.of_same (popW_same w1)).trans (writeGrow_spec p.1 q1 d))
+  | case5 fuel w q d w1 q1 hg h0 p a he hge =>
+    exact (getAppendTempfile_spec hg).trans
+      ((TStep.of_same (popW_same w1)).trans (writeGrow_spec p.1 q1 d))
+  | case6 fuel w q d w1 q1 hg h0 p a he hlt ih =>
+    have hw := writeGrow_spec p.1 q1 (d.take a)
+    have : (d.take a).length = a := by rw [List.length_take]; omega
+    rw [this] at hw
+    exact (getAppendTempfile_spec hg).trans (((TStep.of_same (popW_same w1)).trans hw).trans ih)
+  | case7 fuel w q d w1 q1 hg h0 p he ih =>
+    exact (getAppendTempfile_spec hg).trans ((TStep.of_same (popW_same w1)).trans ih)
+  | case8 fuel w q d w1 q1 hg h0 p he w2 q2 ht ih =>
+    exact (getAppendTempfile_spec hg).trans
+      (((TStep.of_same (popW_same w1)).trans (tempfileErr_tstep ht)).trans ih)
+  | case9 fuel w q d w1 q1 hg h0 p he w2 q2 ht =>
+    exact (getAppendTempfile_spec hg).trans ((TStep.of_same (popW_same w1)).trans (tempfileErr_tstep ht))
+  | case10 fuel w q d w1 q1 hg h0 p he w2 q2 ht ih =>
+    exact (getAppendTempfile_spec hg).trans
+      (((TStep.of_same (popW_same w1)).trans (tempfileErr_tstep ht)).trans ih)
+  | case11 fuel w q d w1 q1 hg h0 p he w2 q2 ht =>
+    exact (getAppendTempfile_spec hg).trans ((TStep.of_same (popW_same w1)).trans (tempfileErr_tstep ht))
+
+/-! ### chunkqueue_append_cqmem_to_tempfile() -/
+
+/-- what chunkqueue_to_tempfiles() has to deliver to its callers -/
+def ToTempOK (toTemp : World → Cq → World × Cq × Bool) : Prop :=
+  ∀ w q, TStep w q (toTemp w q).1 (toTemp w q).2.1
+
+theorem leadingMem_length_le (cs : List Chunk) : (leadingMem cs).length ≤ cs.length := by
+  induction cs with
+  | nil => simp [leadingMem]
+  | cons c cs ih =>
+    simp only [leadingMem]
+    split
+    · simp only [List.length_cons]; omega
+    · simp
+
+theorem leadingMem_all {cs : List Chunk} (h : (leadingMem cs).length = cs.length) :
+    leadingMem cs = cs ∧ ∀ c ∈ cs, c.isMem = true := by
+  induction cs with
+  | nil => exact ⟨rfl, fun c hc => by cases hc⟩
+  | cons c cs ih =>
+    simp only [leadingMem] at h ⊢
+    split at h
+    · rename_i hm
+      simp only [List.length_cons, Nat.add_right_cancel_iff] at h
+      obtain ⟨a, b⟩ := ih h
+      simp only [hm, if_true, a, true_and]
+      intro x hx
+      cases hx with
+      | head => exact hm
+      | tail _ hx => exact b x hx
+    · simp at h
+
+theorem getAppendTempfile_of_mem {w : World} {q : Cq} (h : ∀ c ∈ q.chunks, c.isMem = true) :
+    getAppendTempfile w q = newTempfile w q := by
+  unfold getAppendTempfile
+  split
+  · rename_i fid off len fd hl
+    have := h (.file fid off len true fd) (by rw [split_last hl]; simp)
+    simp [Chunk.isMem] at this
+  · rfl
+
+theorem newTempfile_chunks {w : World} {q : Cq} {w' : World} {q' : Cq}
+    (h : newTempfile w q = (w', q', true)) :
+    ∃ fid, q'.chunks = q.chunks ++ [.file fid 0 0 true .rw] ∧ q'.bytesIn = q.bytesIn ∧
+      q'.bytesOut = q.bytesOut := by
+  unfold newTempfile at h
+  split at h
+  · split at h
+    · rename_i w1 idx fid heq
+      simp only [Prod.mk.injEq] at h
+      obtain ⟨rfl, rfl, _⟩ := h
+      exact ⟨fid, rfl, rfl, rfl⟩
+    · simp at h
+  · split at h
+    split at h
+    · simp at h
+    · split at h
+      rename_i w2 fid hct
+      simp only [Prod.mk.injEq] at h
+      obtain ⟨rfl, rfl, _⟩ := h
+      exact ⟨fid, rfl, rfl, rfl⟩
+
+theorem growLast_concat (q : Cq) (pre : List Chunk) (fid off len : Nat) (t : Bool) (fd : Fd) (n : Nat)
+    (h : q.chunks = pre ++ [.file fid off len t fd]) :
+    (growLast q n).chunks = pre ++ [.file fid off (len + n) t fd] := by
+  unfold growLast
+  have hl : q.chunks.getLast? = some (.file fid off len t fd) := by rw [h]; simp
+  rw [hl]
+  simp [setLast, h]
+
+theorem cqmemPartial_spec {toTemp : World → Cq → World × Cq × Bool} (ht : ToTempOK toTemp)
+    (w : World) (dest : Cq) (wr : Nat)
+    (hsh : ∃ pre c, dest.chunks = pre ++ [c] ∧ wr ≤ remSum pre) :
+    TStep w dest (cqmemPartial toTemp w dest wr).w (cqmemPartial toTemp w dest wr).dest ∧
+      (cqmemPartial toTemp w dest wr).rc ≤ 0 := by
+  obtain ⟨pre, c, hc, hwr⟩ := hsh
+  have hl : dest.chunks.getLast? = some c := by rw [hc]; simp
+  have hdl : dest.chunks.dropLast = pre := by rw [hc]; simp
+  unfold cqmemPartial
+  rw [hl]
+  dsimp only
+  refine ⟨TStep.trans ?_ (ht _ _), by split <;> omega⟩
+  intro hf hq
+  obtain ⟨hs, hv⟩ := mwLoop_spec w dest.chunks.dropLast wr
+  have hval := hq.valid
+  rw [hc] at hval
+  rw [hdl] at hs hv
+  obtain ⟨v1, v2⟩ := hv hval.left
+  have hlen := hq.len
+  rw [hc] at hlen
+  simp only [remSum_append, remSum_cons, remSum_nil] at hlen
+  simp only [markWritten, hdl]
+  refine ⟨hs.fresh hf, hs.grows, ?_⟩
+  refine ⟨ValidAll.cons ((hval.right.head).mono hs.grows) v1, ?_⟩
+  simp only [remSum_cons, v2]
+  omega
+
+theorem cqmemWritten_spec {toTemp : World → Cq → World × Cq × Bool} (ht : ToTempOK toTemp)
+    (w : World) (dest : Cq) (dlen wr : Nat)
+    (hsh : dlen ≠ 0 → ∃ pre c, dest.chunks = pre ++ [c] ∧ dlen = remSum pre) :
+    TStep w dest (cqmemWritten toTemp w dest dlen wr).w (cqmemWritten toTemp w dest dlen wr).dest ∧
+      (cqmemWritten toTemp w dest dlen wr).rc ≤ ((wr - dlen : Nat) : Int) := by
+  unfold cqmemWritten
+  split
+  · rename_i h0
+    exact ⟨TStep.refl w dest, by subst h0; simp⟩
+  · rename_i h0
+    obtain ⟨pre, c, hc, hd⟩ := hsh h0
+    split
+    · rename_i hlt
+      obtain ⟨a, b⟩ := cqmemPartial_spec ht w dest wr ⟨pre, c, hc, by omega⟩
+      exact ⟨a, by omega⟩
+    · rename_i hge
+      dsimp only
+      refine ⟨?_, by omega⟩
+      intro hf hq
+      have hm := markWritten_spec w { dest with bytesIn := dest.bytesIn - dlen, bytesOut := dest.bytesOut - dlen } dlen
+      have hlen := hq.len
+      have hq1 : QV w { dest with bytesIn := dest.bytesIn - dlen, bytesOut := dest.bytesOut - dlen } :=
+        ⟨hq.valid, by simp only; omega⟩
+      have hle : dlen ≤ remSum dest.chunks := by rw [hc]; simp only [remSum_append]; omega
+      exact ⟨hm.1.fresh hf, hm.1.grows, hm.2 hq1 hle⟩
+
+theorem effFault_cases (q : Cq) (f : WFault) : True := trivial
+
+theorem cqmemWrite_spec {toTemp : World → Cq → World × Cq × Bool} (ht : ToTempOK toTemp)
+    (w : World) (dest : Cq) (dbytes sbytes : Bytes)
+    (hsh : dbytes.length ≠ 0 → ∃ pre fid, dest.chunks = pre ++ [.file fid 0 0 true .rw] ∧
+      dbytes.length = remSum pre) :
+    TStep w dest (cqmemWrite toTemp w dest dbytes sbytes).w (cqmemWrite toTemp w dest dbytes sbytes).dest ∧
+      (cqmemWrite toTemp w dest dbytes sbytes).rc ≤ sbytes.length := by
+  unfold cqmemWrite
+  dsimp only
+  have hp : TStep w dest (popW w).1 dest := TStep.of_same (popW_same w)
+  have shape : ∀ n, dbytes.length ≠ 0 →
+      ∃ pre c, (growLast dest n).chunks = pre ++ [c] ∧ dbytes.length = remSum pre := by
+    intro n h0
+    obtain ⟨pre, fid, hc, hd⟩ := hsh h0
+    exact ⟨pre, _, growLast_concat dest pre fid 0 0 true .rw n hc, hd⟩
+  split
+  · obtain ⟨a, b⟩ := cqmemWritten_spec ht (writeLast (popW w).1 dest (dbytes ++ sbytes))
+      (growLast dest (dbytes ++ sbytes).length) dbytes.length (dbytes ++ sbytes).length (shape _)
+    refine ⟨(hp.trans (writeGrow_spec _ dest _)).trans a, ?_⟩
+    simp only [List.length_append] at b ⊢
+    omega
+  · rename_i n he
+    obtain ⟨a, b⟩ := cqmemWritten_spec ht (writeLast (popW w).1 dest ((dbytes ++ sbytes).take n))
+      (growLast dest ((dbytes ++ sbytes).take n).length) dbytes.length ((dbytes ++ sbytes).take n).length (shape _)
+    refine ⟨(hp.trans (writeGrow_spec _ dest _)).trans a, ?_⟩
+    simp only [List.length_take, List.length_append] at b ⊢
+    omega
+  · exact ⟨hp, by simp⟩
+  · exact ⟨hp.trans (tempfileErr_tstep (w' := (tempfileErr (popW w).1 dest true).1)
+      (q' := (tempfileErr (popW w).1 dest true).2.1) (r := (tempfileErr (popW w).1 dest true).2.2) rfl),
+      by split <;> (dsimp only; omega)⟩
+  · exact ⟨hp.trans (tempfileErr_tstep (w' := (tempfileErr (popW w).1 dest false).1)
+      (q' := (tempfileErr (popW w).1 dest false).2.1) (r := (tempfileErr (popW w).1 dest false).2.2) rfl),
+      by split <;> (dsimp only; omega)⟩
+
 end LtVerif.Cq
